@@ -39,7 +39,9 @@ RULE_ADDED = (
               'Round 9: a certificate of the SGX chain re-issued by a key of another signature '
               'algorithm. '
               ' '
-              "Round 10: the UI vouching for another of the operator's own keys. ")
+              "Round 10: the UI vouching for another of the operator's own keys. "
+              ' '
+              'Round 11: attestation-key message / quote extended without re-signing. ')
 RULE = RULE + " " + RULE_ADDED.strip()
 ASSUMPTIONS = [
     "stdout of the commands is parsed by label ('UD value:', 'Hash:', ...)",
